@@ -77,6 +77,21 @@ def parse_case(line):
     return c
 
 
+def valid_request(c):
+    """the request is inside every documented parameter range of the method"""
+    return 1 <= c["d"] <= c["D"] and c["d"] < c["N"] and 3 <= c["k"] < c["N"] and c["d"] <= c["k"]
+
+
+def degenerate(c):
+    """stated degeneracy predicate of the DATA under which NPE / LLTSA / LPP may fail numerically: the centred features
+    do not span all D dimensions (the D x D right-hand side X·Xᵀ / X·D·Xᵀ of the generalised eigenproblem is singular)
+    or two samples coincide (a zero neighbour distance)"""
+    rows = c["rows"]
+    if len(set(tuple(r) for r in rows)) < len(rows):
+        return True
+    return sp.centred_points_rank(rows) < c["D"]
+
+
 # ----------------------------------------------------------------------------- judging
 def judge(ctx, binary, cases):
     lines = [case_line(c) for c in cases]
@@ -97,13 +112,21 @@ def judge(ctx, binary, cases):
             else:
                 v["bad"].append(("validate", "d>D-not-rejected:" + io.split(" ")[0].split("@")[0]))
             continue
-        if io.startswith("throw:"):
-            # PCA / Random Projection have no numerical precondition: a throw is a failure;
-            # the three neighbourhood methods may legitimately fail on degenerate data (C10's business)
-            if c["topic"] == "proj" and c["method"] in ("pca", "rp"):
+        if io.startswith("throw:") and c["topic"] == "proj":
+            # valid request (1 <= d <= D, 3 <= k < N, d <= k): a parameter error is a failing input for all five methods;
+            # PCA / Random Projection have no numerical precondition: any throw is a failure;
+            # NPE / LLTSA / LPP solve a generalised eigenproblem whose right-hand side is singular exactly when the data
+            # are degenerate (predicate `degenerate`): only there a numerical failure is an accepted outcome
+            if io == "throw:wrong_parameter_error" and valid_request(c):
+                v["bad"].append(("validate", "valid-request-rejected"))
+            elif c["method"] in ("pca", "rp") or not degenerate(c):
                 v["bad"].append(("impl", io))
             else:
-                v["skip"] = io
+                v["skip"] = "degenerate-data:" + io
+            continue
+        if io.startswith("throw:"):
+            # `empty` topic: fixed benign parameters (d = 2 <= D = 3, k = 7 < N) on generic data: nothing may throw
+            v["bad"].append(("impl", io))
             continue
         f = sp.fields(io)
         if c["topic"] == "empty":
@@ -119,7 +142,10 @@ def judge(ctx, binary, cases):
             v["bad"].append(("has", "no-projection-returned"))
             continue
         if sp.has_nonfinite(io):
-            v["skip"] = "nonfinite-output"
+            if c["method"] in ("pca", "rp") or not degenerate(c):
+                v["bad"].append(("finite", "non-finite-projection-or-embedding"))
+            else:
+                v["skip"] = "degenerate-data:nonfinite-output"
             continue
         jl.append(line + " " + io[3:])
         where.append(n)
@@ -138,6 +164,10 @@ def judge(ctx, binary, cases):
                 val = t.get(key, "missing")
                 if not (val.startswith("exact") or val.startswith("approx")):
                     v["bad"].append((key, val.split(":")[0].split("@")[0]))
+            # projection(x_i) and row i of the embedding are the same expression over the same doubles: BITWISE equality
+            # is demanded; agreement that is only within 2^-40 is reported as a broken correspondence, not as a failing input
+            if t.get("train", "").startswith("approx"):
+                v["soft"].append(("train", "not-bitwise"))
             if not t.get("affine", "missing").startswith("ok"):
                 v["bad"].append(("affine", t.get("affine", "missing").split(":")[0]))
             if t.get("pure", "missing") != "ok":
@@ -189,7 +219,8 @@ WHAT = {
     "pure": "the projection function is not a pure function of its argument (results of earlier applications are "
             "disturbed by later ones / several applications in one expression interfere)",
     "has": "projection presence is wrong for the method",
-    "validate": "a target dimension above the feature dimension is not rejected with wrong_parameter_error",
+    "validate": "parameter validation is wrong: d > D not rejected with wrong_parameter_error, or a valid request rejected",
+    "finite": "the returned projection matrix / embedding is not finite on non-degenerate data",
     "impl": "the implementation aborted / threw",
     "table": "Gen/Projections.lean disagrees with the running code",
     "driver": "model driver could not judge the case",
@@ -236,6 +267,11 @@ def account(ctx, c, v):
         for part in v["cmp"].split(","):
             k, n = part.split(":")
             ctx.stat("comparisons:" + k, int(n))
+    if c["topic"] == "proj" and c["d"] <= c["D"]:
+        ctx._per_method = getattr(ctx, "_per_method", {})
+        pm = ctx._per_method.setdefault(c["method"], [0, 0])
+        pm[0] += 1
+        pm[1] += 1 if v["skip"] else 0
     if v["skip"]:
         ctx.stat("skipped:" + v["skip"].split(":std:")[0])
     else:
@@ -276,9 +312,19 @@ def gen_cases(ctx, quick):
             rows = [[Fraction(v) for v in row] for row in sp.low_rank_points(r, N, D, D, amp=3)]
             if r.chance(1, 4):   # non-integer data
                 rows = [[v / 4 for v in row] for row in rows]
+            if m in ("pca", "rp") and r.chance(1, 3):   # other units (power-of-two scale: exact), affine maps are scale-free
+                rows = [[v * Fraction(2) ** r.choice([-30, -12, 10, 24]) for v in row] for row in rows]
             d = r.range(1, min(D, N - 1))
+            if rnd == 0:
+                d = min(D, N - 1)          # the largest valid target dimension (d = D) of every method, every run
+            elif rnd == 1:
+                d = 1
             k = min(N - 1, r.range(max(3, d + 2), 8))
             q, combs = gen_queries(r, rows, D, r.range(2, 6))
+            big = max(abs(v) for row in rows for v in row)
+            if big > 10 ** 4 or big < Fraction(1, 100):      # keep the unseen queries in the units of the data
+                unit = big / 16
+                q = [[v * unit for v in qq] if cb is None else qq for qq, cb in zip(q, combs)]
             integer = all(v.denominator == 1 for row in rows for v in row)
             cases.append({"topic": "proj", "label": "five-methods", "method": m, "N": N, "D": D, "d": d, "k": k,
                           "seed": r.range(1, 10 ** 6), "rows": rows, "q": q, "combs": combs,
@@ -332,6 +378,15 @@ def correspond(ctx):
     ctx.log("%d generated cases" % len(cases))
     run_all(ctx, binary, cases)
     ctx.extra["failure_signature_counts"] = dict(ctx._seen)
+    # a method whose cases are mostly skipped is not being checked: more than 25 % skips is a broken correspondence
+    per = getattr(ctx, "_per_method", {})
+    ctx.extra["judged_per_method"] = {m: {"cases": n, "skipped": k} for m, (n, k) in per.items()}
+    for m in PROJECTING:
+        n, k = per.get(m, (0, 0))
+        if n == 0 or 4 * k > n:
+            ctx.broken("corr:skip-rate:" + m, "correspondence c07_proj (cases judged per method)",
+                       "%s: %d of %d valid-request cases were skipped (degenerate data / none generated): the method is "
+                       "not being checked" % (m, k, n))
     ctx.extra["generated_table"] = {k: ("matrix" if v else "unimplemented") for k, v in getattr(ctx, "_table", {}).items()}
     ctx.cov["rule"] = ("public-API runs of the five projecting methods (PCA, Random Projection, NPE, LLTSA, LPP) on integer "
                        "and dyadic feature data (N <= %d, D <= 8, d <= D): projection(x_i) vs embedding row i (bitwise), "
@@ -344,10 +399,13 @@ def correspond(ctx):
     ctx.assumptions += [
         "harness compiled at -O0 -g1 (ASan+UBSan on) instead of -O1 -g: the all-methods translation unit needs 2-3 min and "
         "several GB otherwise",
-        "IEEE rounding: projection(x_i) and the embedding row are demanded bitwise equal (counted; approx fallback 2^-40 "
-        "counted separately); model-vs-implementation values of P^T(x-mean) within 2^-40 of the largest product magnitude",
-        "a throw / NaN eigenvector matrix of NPE, LLTSA, LPP on degenerate neighbourhood data is skipped here (counted): "
-        "the spectral correctness of those methods is property C10",
+        "IEEE rounding: projection(x_i) and the embedding row are demanded BITWISE equal (agreement only within 2^-40 is "
+        "reported as a broken correspondence); model-vs-implementation values of P^T(x-mean) within 2^-40 of the largest product magnitude",
+        "NPE, LLTSA, LPP: a numerical failure (throw / non-finite output) is accepted only when the DATA are degenerate "
+        "(centred features of rank < D, or coincident samples — computed exactly per case, counted); everywhere else, and "
+        "for PCA / Random Projection always, it is a failing input; wrong_parameter_error on a valid request "
+        "(1 <= d <= D, 3 <= k < N, d <= k) is a failing input; more than 25 % skipped cases of a method is a broken "
+        "correspondence",
     ]
 
 
